@@ -68,6 +68,11 @@ def _render(case, rnd) -> str:
     t, s = (lambda: idc(case["tname"])), (lambda: idc(case["sname"]))
     col = idc
     on = f" {kw('and')} ".join(f"{t()}.{col('k' + str(j))} = {s()}.{col('k' + str(j))}" for j in range(nk))
+    ox = case.get("on_extra") or {}
+    if ox.get("t") is not None:
+        on += f" {kw('and')} {t()}.{col('c' + str(ox['t']))} = 1"
+    if ox.get("s") is not None:
+        on += f" {kw('and')} {s()}.{col('d' + str(ox['s']))} = 1"
     parts = [f"{kw('merge into')} {t()} {kw('using')} {idc(case['source_sql'])} {kw('on')} {on}"]
 
     tt, stt = _types(case)
@@ -174,7 +179,29 @@ def _gen_case(rnd: random.Random, i: int) -> dict:
         source_sql = "(select * from s) as s"
     elif style == "quoted":
         tname, sname, source_sql = '"T"', '"S"', '"S"'
-    return {"id": i, "shape": (nk, ntc, nsc), "ttypes": tt, "stypes": stt, "tloc": tloc, "clauses": clauses, "tgt": tgt, "src": src, "style": style, "tname": tname, "sname": sname,
+    on_extra = None
+    if rnd.random() < 0.22 and style != "qualified-source":
+        # extra ON terms: `AND t.c<j> = 1` over a target column that no clause assigns and/or `AND s.d<j> = 1`.
+        # Rows failing their term never join (the model sees them with a NULL join key).  Envelope of this style:
+        # no NULL keys, insert clauses last (an inserted row cannot be re-joined by a later clause).
+        tcol = max(j for j in range(ntc) if tt[j] == "i")
+        scol = max(j for j in range(nsc) if stt[j] == "i")
+        which = rnd.choice(["t", "t", "s", "ts"])
+        tgt = [(k, tuple(rnd.choice([0, 1, 1]) if (c == tcol and "t" in which) else v for c, v in enumerate(vals))) for k, vals in tgt if k is not None]
+        src = [(k, tuple(rnd.choice([0, 1, 1]) if (c == scol and "s" in which) else v for c, v in enumerate(vals))) for k, vals in src if k is not None]
+        fixed = []
+        for c in clauses:
+            f = c.split(":")
+            if f[0] == "U" and "t" in which:
+                keep = [a for a in f[2].split(",") if int(a.split("=")[0]) != tcol]
+                if not keep:
+                    other = next(j for j in range(ntc) if j != tcol)
+                    keep = [f"{other}={rhs(tt[other])}"]
+                c = f"U:{f[1]}:{','.join(keep)}"
+            fixed.append(c)
+        clauses = [c for c in fixed if c[0] != "I"] + [c for c in fixed if c[0] == "I"]
+        on_extra = {"t": tcol if "t" in which else None, "s": scol if "s" in which else None}
+    return {"id": i, "on_extra": on_extra, "shape": (nk, ntc, nsc), "ttypes": tt, "stypes": stt, "tloc": tloc, "clauses": clauses, "tgt": tgt, "src": src, "style": style, "tname": tname, "sname": sname,
             "source_sql": source_sql, "recase": rnd.random() < 0.5, "omit_true": rnd.random() < 0.7,
             "permute_insert": rnd.random() < 0.3, "render_seed": rnd.randrange(1 << 30)}
 
@@ -268,17 +295,46 @@ def _enc_row(r) -> str:
     return ("N" if k is None else ",".join(map(str, k))) + "|" + ",".join(map(str, vals))
 
 
+def _shift_clause(c: str, nk: int) -> str:
+    """clause over (key ++ non-key) value lists: every column index moves up by nk, inserts copy the source key columns"""
+    import re
+    f = c.split(":")
+    cond = re.sub(r"\b([ts])(\d+)", lambda m: f"{m.group(1)}{int(m.group(2)) + nk}", f[1])
+
+    def rhs(r):
+        return f"s{int(r[1:]) + nk}" if r[0] == "s" else r
+    if f[0] == "D":
+        return f"D:{cond}"
+    if f[0] == "U":
+        return f"U:{cond}:" + ",".join(f"{int(a.split('=')[0]) + nk}={rhs(a.split('=')[1])}" for a in f[2].split(","))
+    return f"I:{cond}:" + ",".join([f"s{j}" for j in range(nk)] + [rhs(r) for r in f[2].split(",")])
+
+
 def _line(case) -> str:
-    return "\t".join(["merge", "run", enc_list(case["clauses"]), enc_list([_enc_row(r) for r in case["tgt"]]),
-                      enc_list([_enc_row(r) for r in case["src"]])])
+    ox = case.get("on_extra")
+    if not ox:
+        return "\t".join(["merge", "run", enc_list(case["clauses"]), enc_list([_enc_row(r) for r in case["tgt"]]),
+                          enc_list([_enc_row(r) for r in case["src"]])])
+    nk = case["shape"][0]
+
+    def enc(r, col):
+        k, vals = r
+        joins = col is None or vals[col] == 1
+        return _enc_row((k if joins else None, tuple(k) + tuple(vals)))
+    return "\t".join(["merge", "run", enc_list([_shift_clause(c, nk) for c in case["clauses"]]),
+                      enc_list([enc(r, ox["t"]) for r in case["tgt"]]), enc_list([enc(r, ox["s"]) for r in case["src"]])])
 
 
-def _rows(s: str, nk: int):
+def _rows(s: str, nk: int, extra: bool = False):
     out = []
     for r in dec_list(s):
         k, v = r.split("|")
+        vals = tuple(int(x) for x in v.split(","))
+        if extra:   # the value list already starts with the key columns
+            out.append(vals)
+            continue
         key = (None,) * nk if k == "N" else tuple(int(x) for x in k.split(","))
-        out.append(key + tuple(int(x) for x in v.split(",")))
+        out.append(key + vals)
     return sorted(out, key=_sortkey)
 
 
@@ -299,6 +355,8 @@ def _judge(chk, case, real, m) -> None:
     ops = "".join(c[0] for c in case["clauses"])
     chk.count("clauses:" + ops)
     chk.count("style:" + case["style"])
+    if case.get("on_extra"):
+        chk.count("on-extra:" + "".join(k for k, v in case["on_extra"].items() if v is not None))
     chk.count("shape:" + "/".join(map(str, case["shape"])))
     chk.count("region:" + finding)
     nontrivial = bool(case["tgt"]) and bool(case["src"]) and finding != "out-of-scope:nondeterministic"
@@ -306,7 +364,7 @@ def _judge(chk, case, real, m) -> None:
     if finding.startswith("out-of-scope"):
         return
     nk = case["shape"][0]
-    spec_t, impl_t = _rows(m["spec"], nk), _rows(m["impl"], nk)
+    spec_t, impl_t = _rows(m["spec"], nk, bool(case.get("on_extra"))), _rows(m["impl"], nk, bool(case.get("on_extra")))
     sc, ic = _counts(m["scount"]), _counts(m["icount"])
     src0 = sorted((_flat(r, nk) for r in case["src"]), key=_sortkey)
     desc = f"{real['sql']!r} over t={case['tgt']} s={case['src']}"
